@@ -1,7 +1,8 @@
 import NmlVerif.Gen.Bindings
 import NmlVerif.Gen.Xsd
+import NmlVerif.Gen.Validators
 import NmlVerif.DrvCommon
-open Lean NmlVerif.Binding NmlVerif.Schema Drv
+open Lean NmlVerif.Binding NmlVerif.Schema NmlVerif.Facets Drv
 
 def optStr (j : Json) : Option String := match j with | .str s => some s | _ => none
 
@@ -18,6 +19,22 @@ partial def parseObj (j : Json) : Obj :=
   .mk c attrs (optStr (getObj j "t")) kids
 
 def tableT := NmlVerif.Gen.Bindings.table
+def pyT := NmlVerif.Gen.Validators.pyTypes
+def xsdT := NmlVerif.Gen.Validators.xsdTypes
+def pcT := NmlVerif.Gen.Validators.patCheck
+
+/-- the simple-type predicate of the walk: `str`-based types are decided by the MODEL of the generated validators
+    (regenerated tables, reference engine); numeric types by the verdicts the harness observed (`bad`) -/
+def stModel (bad : List (Nat × String)) : Nat → String → Bool := fun v s =>
+  match findPy pyT v with
+  | some ty => if ty.base = .str then stPy refEngine pcT pyT v s else !(bad.contains (v, s))
+  | none => !(bad.contains (v, s))
+
+def parseVal (j : Json) : PyVal :=
+  match getStr j "base" with
+  | "int" => .int (getInt j "i")
+  | "float" => .float ((getInt j "num" : Rat) / (getNat j "den" : Rat))
+  | _ => .str (getStr j "s").toList
 
 def handle (j : Json) : Json :=
   let fuel := getNat j "fuel"
@@ -27,18 +44,36 @@ def handle (j : Json) : Json :=
       match p with
       | .arr #[v, .str s] => some ((v.getNat?.toOption).getD 0, s)
       | _ => none
-    let st : Nat → String → Bool := fun v s => !(bad.contains (v, s))
+    let st : Nat → String → Bool := if getBool j "abstract" then (fun v s => !(bad.contains (v, s))) else stModel bad
     let o := parseObj (getObj j "obj")
     Json.mkObj [("all", validateAll tableT st fuel o), ("old", validateOld tableT st fuel o), ("flat", validateFlat tableT st o)]
   | "children" =>
     -- content model verdict of the sequence matcher for class `cls` on a child-tag word
     let c := getNat j "cls"
     let X := NmlVerif.Gen.Xsd.types
-    Json.mkObj [("seqShaped", seqShaped X X.length c), ("seqOrAll", seqOrAllShaped X X.length c), ("ok", matchSeq (fullElems X X.length c) (natList (getObj j "word")))]
+    let w := natList (getObj j "word")
+    let gs := fullGroups NmlVerif.Gen.Xsd.groups X X.length c
+    Json.mkObj [("seqShaped", seqShaped X X.length c), ("seqOrAll", seqOrAllShaped X X.length c), ("ok", matchSeq (fullElems X X.length c) w),
+                ("groupShaped", gs.isSome), ("groupsOk", match gs with | some g => matchGroups g w | none => false)]
+  | "simple" =>
+    -- one value against one simple type: the generated validator (model) and the schema's value space
+    let t := getNat j "t"
+    let v := parseVal j
+    let py := findPy pyT t
+    let x := findXsdT xsdT t
+    Json.mkObj [("py", match py with | some ty => Json.bool (runValidator refEngine pcT ty v) | none => Json.null),
+                ("xsd", match x with | some xt => Json.bool (xsdValid xt v) | none => Json.null),
+                ("plain", match v with | .str s => plainSpaces s | _ => true),
+                ("range", match x with | some xt => xt.base.rangeOK v | none => true),
+                ("nlfree", match x with | some xt => nlFree xt | none => true)]
   | "agree" => Json.mkObj [("agree", agree tableT NmlVerif.Gen.Xsd.types),
       ("violations", Json.arr ((agreeViolations tableT NmlVerif.Gen.Xsd.types).map (fun (n : Nat) => Json.num n)).toArray),
       ("facets", facetsAgree NmlVerif.Gen.Xsd.schemaFacets NmlVerif.Gen.Xsd.bindingFacets),
-      ("order", contentOrderAgrees tableT NmlVerif.Gen.Xsd.types)]
+      ("order", contentOrderAgrees tableT NmlVerif.Gen.Xsd.types),
+      ("validators", allAgree pyT xsdT),
+      ("badValidators", Json.arr ((pyT.filter (fun py => match findXsdT xsdT py.name with
+          | some x => !(typeAgrees py x) | none => true)).map (fun py => Json.num py.name)).toArray),
+      ("patCheckFullLen", pcT.test == LenTest.fullLen)]
   | _ => Json.mkObj [("err", "op")]
 
 def main : IO Unit := loop handle
